@@ -1,7 +1,7 @@
 (* RunSchema.v — one executable comparison per (schema, values) case: model parser and
    evaluator, reference semantics, and the implementation's recorded observations. *)
 From Coq Require String. Import String.StringSyntax.
-From Statham.Model Require Import Str Json Elem Validate Names Parser Canon Spec6 RunHelpers Unsupported.
+From Statham.Model Require Import Str Json Elem Validate Names Parser Canon Spec6 RunHelpers Unsupported Plain.
 From Statham.Generated Require Gen_unicode Gen_reserved Gen_constants Gen_parser_tables.
 Local Open Scope string_scope.
 Local Open Scope list_scope.
@@ -65,6 +65,11 @@ Definition run_case (c : scase) : list nat :=
       end) (sc_vals c))
   | PErr _ => []
   end.
+
+(* C01: the codes of run_case, plus 9 when the schema lies in the fragment on which
+   C01_validity_plain is proved (Plain.plainb, sound by C01_plain_checker) *)
+Definition run_case_c01 (c : scase) : list nat :=
+  run_case c ++ (if plainb (cfg_of c) 200 (sc_schema c) then [9] else []).
 
 (* diagnostic view *)
 Definition show_case (c : scase) :=
